@@ -17,7 +17,10 @@ RULE = ("seeded random declaration trees (depth <= 3: arguments, dotted groups, 
         "another level) with values 7 / null / {} / nested mappings / lists inserted into every mapping of the tree "
         "(top level, group, dataclass, class value, init_args, list item, subcommand section incl. a section not in force), "
         "every key removed, every scalar / argument key nulled, plus seeded pairs insertion+removal; each through one of the "
-        "channels parse_object / parse_string / argv --cfg / environment APP_CFG (quick: channel drawn per case, thorough: all four). "
+        "channels parse_object / parse_string / argv --cfg / environment APP_CFG (quick: channel drawn per case, thorough: all four), "
+        "and again WITHOUT merging defaults (parse_object / parse_string with defaults=False: no subcommand section is created for "
+        "the parse, extra sections are only dropped when more than one is given); for parsers with subcommands also: the subcommand "
+        "named but its section omitted / empty / only another subcommand's section given. "
         "Non-trivial = the configuration was mutated; distinct = distinct (parser, configuration, channel).")
 TRUSTED = [
     "Coq 8.16.1 kernel + vm_compute",
@@ -32,6 +35,8 @@ ASSUMPTIONS = [
     "the top level is not named like an argument of a subcommand (ActionTypeHint._check_type looks up cfg.get(self.dest) in the "
     "PARENT's namespace for prev_val: an unrelated cross-talk, 'No action for key ... to set its default')",
     "the parser's flat action table with dotted dests is represented by the declaration tree it was built from",
+    "defaults=False is exercised on the object and config-text channels only (--cfg behaves like the object channel and APP_CFG "
+    "like defaults=True as far as subcommand sections are concerned; not modelled separately)",
     "argv as individual options and individual environment variables are not modelled (the configuration travels as a "
     "whole: object, config string, --cfg string, APP_CFG string)",
     "dict_kwargs (documented escape for unresolved **kwargs) is treated as declared and opaque; never generated",
@@ -510,7 +515,8 @@ def shrink(case):
 
 
 META = {
-    "level_text": "Theorems in coq/Properties/C06.v, for ALL declaration trees, ALL configuration trees and any fuel of the model "
+    "level_text": "Theorems in coq/Properties/C06.v, for ALL declaration trees, ALL configuration trees, all three hand-over modes "
+                  "(defaults merged / parse_object without defaults / parse_string without defaults) and any fuel of the model "
                   "(Model/C06Validate.v: the lenient _apply_actions pre-pass, subcommand selection, check_values with depth-sorted keys, "
                   "branch-key escape and the group/subcommand error variants, check_required with the recursion into the selected "
                   "subcommand, and the nested per-class parsers for List[dataclass] items and init_args): "
@@ -518,8 +524,8 @@ META = {
                   "level, dotted groups, dataclass fields, init_args of a class, list items, section of the subcommand in force) other "
                   "than keys of three listed finding classes; guarded form C06_accepted_only_if_all_keys_declared with the judge's "
                   "guard_class; (2) C06_accepted_only_if_required_present: acceptance implies every required key of the closure (own "
-                  "arguments, those of the subcommand in force, required fields of every list item, required parameters of the selected "
-                  "class, recursively) is present and non-null, and C06_required_subcommand_selected: a required subcommand is selected "
+                  "arguments, those of the subcommand in force, those of a kept section of another subcommand, required fields of every "
+                  "list item, required parameters of the selected class, recursively) is present and non-null, and C06_required_subcommand_selected: a required subcommand is selected "
                   "and declared; (3) C06_unknown_key_error_only_if_undeclared: an unknown-key error is raised only when the configuration does "
                   "contain an undeclared key; (4) three _refuted witnesses (kernel-evaluated) for the findings. "
                   "That the key NAMED by the error is the offending one is NOT a theorem: it is checked per case by the correspondence (the key "
